@@ -6,6 +6,12 @@ ENGINES = [
 NOTES = "Every deciding step is an exhaustive enumeration within stated bounds (see evidence coverage.rule and DESIGN.md). Exit 2 = harness could not be built/run against the tree (no verdict)."
 NA = {}
 TEXT = {
+    "C01": {
+        "engine": "E1 choice-point explorer",
+        "technique": "deviation-bounded exhaustive enumeration of a traceback-printer model's choice vectors against ground truth",
+        "text": "A Go model of runtime/traceback.go's printer emits text plus the structure it printed; every choice vector with <=2 (quick) / <=3 (thorough) deviations from the plainest dump, the full product of the format dimensions and the full symbol x file product are parsed by the real ScanSnapshot and compared field by field with the ground truth. The compositions (indentation x second goroutine, escape x position, annotation x CRLF ...) are covered by construction.",
+        "note": "Trusts the printer model (state strings are read from the installed runtimes' sources at check time). The live-runtime part of the quantifier is exercised by C20's workload dumps.",
+    },
     "C04": {
         "engine": "bounded-exhaustive product enumerators",
         "technique": "bounded-exhaustive enumeration of all multisets (<=4) x arrival orders x levels on the real Aggregate",
